@@ -158,6 +158,16 @@ def kf_triggers(evs):
                 # the deleting operation overlaps in time with the operation that created the record
                 if mine and theirs and mine[0][0] < theirs[0][1] and theirs[0][0] < mine[0][1]:
                     tr.append(("KF-L23-prune-deletes-pending-record-of-running-operation", i))
+    # L24: install --replace supersedes the pending record of an install that is still running
+    for i, x in enumerate(evs):
+        if x["ev"] == "call" and x["kind"] == "store" and x["verb"] == "update" and x["ok"] and x["rev"] in owner \
+                and owner[x["rev"]][0] != x["proc"]:
+            q, ci = owner[x["rev"]]
+            mine = [(b2, e2) for b2, e2 in spans.get(x["proc"], []) if b2 <= i <= e2]
+            theirs = [(b2, e2) for b2, e2 in spans.get(q, []) if b2 <= ci <= e2]
+            if mine and theirs and theirs[0][0] < i < theirs[0][1] and evs[mine[0][0]]["op"] == "install" \
+                    and evs[mine[0][0]]["flags"]["replace"]:
+                tr.append(("KF-L24-replace-supersedes-running-install", i))
     return tr
 
 
@@ -168,6 +178,8 @@ KF_RELEVANT = {
     "KF-L14-hook-create-failure-skips-policy-deletes": {"C12_DeletedByPolicy"},
     "KF-L23-prune-deletes-pending-record-of-running-operation": {"C09_Quiescent", "C09_UniqueCreator", "C09_LoserClean",
                                                                  "C01_OneDeployed", "C01_Success", "C02_Success"},
+    "KF-L24-replace-supersedes-running-install": {"C09_Quiescent", "C09_LoserClean", "C01_OneDeployed", "C01_Success",
+                                                  "C02_Success"},
     "KF-L22-atomic-rollback-races-with-upgrade": {"C09_Quiescent", "C01_OneDeployed", "C01_Success", "C02_Success",
                                                   "C03_AtomicUpgrade"},
     "KF-L1-replace-keeps-older-deployed": {"C01_OneDeployed", "C01_Success", "C02_Success"},
@@ -179,7 +191,7 @@ KF_RELEVANT = {
     "KF-L6-unstructured-two-way-merge": {"C02_Success", "C03_AtomicUpgrade"},
 }
 # findings whose damage persists in the ledger: later states of the same scenario stay affected
-KF_PERSIST = {"KF-L23-prune-deletes-pending-record-of-running-operation", "KF-L22-atomic-rollback-races-with-upgrade", "KF-L2-upgrade-supersede-swallowed", "KF-L2-rollback-supersede-swallowed",
+KF_PERSIST = {"KF-L24-replace-supersedes-running-install", "KF-L23-prune-deletes-pending-record-of-running-operation", "KF-L22-atomic-rollback-races-with-upgrade", "KF-L2-upgrade-supersede-swallowed", "KF-L2-rollback-supersede-swallowed",
               "KF-L1-replace-keeps-older-deployed"}
 
 
